@@ -162,6 +162,18 @@ fn c12_outcome(data: &Rc<Vec<u8>>, env: &Env) -> (Vec<(RecObs, Option<u64>)>, Ve
     let run = run_next(data, env, Driver::Next);
     let mut recs = vec![];
     let mut other = vec![];
+    // the same file through record sets (plain and exact(2)): the records must be the same ones
+    for drv in [Drv::Sets, Drv::Exact(2)] {
+        let f = run_flat(data, env, drv);
+        let via_sets: Vec<&RecObs> = f.items.iter().filter_map(|i| if let Item::Rec(r) = i { Some(r) } else { None }).collect();
+        let via_next: Vec<&RecObs> = run.items.iter().filter_map(|(i, _)| if let Item::Rec(r) = i { Some(r) } else { None }).collect();
+        if via_sets.len() != via_next.len() || via_sets.iter().zip(&via_next).any(|(a, b)| !a.same(b)) {
+            other.push(format!("records read through {:?} differ from next(): {:?}", drv, via_sets.iter().map(|r| r.show()).collect::<Vec<_>>()));
+        }
+        if f.items.iter().any(|i| matches!(i, Item::Err(_) | Item::Panic(_))) {
+            other.push(format!("{:?}: {:?}", drv, f.items.iter().filter(|i| !matches!(i, Item::Rec(_) | Item::End)).map(|i| i.show()).collect::<Vec<_>>()));
+        }
+    }
     for (it, pos) in &run.items {
         match it {
             Item::Rec(r) => {
@@ -286,7 +298,7 @@ pub fn c12(tier: Tier) -> i32 {
         Report {
             property: "C12".into(),
             tier: tier.name().into(),
-            rule: "every abstract well-formed file (1..R records over the shape menu, 0/2 leading (FASTA) and 0..2 trailing blank lines) materialised as {LF,CRLF} x {final terminator, none}, for FASTA additionally every per-line LF/CRLF assignment; each variant parsed under every capacity 3..len+2 and 64 KiB; all variants must give the records (head, non-empty sequence lines, quality, header line number) of the LF version, no error, no CR in any field; non-trivial = every run (all files contain >= 1 record)".into(),
+            rule: "every abstract well-formed file (1..R records over the shape menu, 0/2 leading (FASTA) and 0..2 trailing blank lines) materialised as {LF,CRLF} x {final terminator, none}, for FASTA additionally every per-line LF/CRLF assignment; each variant parsed under every capacity 3..len+2 and 64 KiB with next(), and through read_record_set / read_record_set_exact(2) (same records as next()); all variants must give the records (head, non-empty sequence lines, quality, header line number) of the LF version, no error, no CR in any field; non-trivial = every run (all files contain >= 1 record)".into(),
             exhaustive: true,
             assumptions: std_assumptions(),
             extra: json!({"states_note": STATES_NOTE}),
